@@ -16,7 +16,7 @@ pub fn info() -> PropertyInfo {
     PropertyInfo {
         id: "C14",
         level: "exploration",
-        rule: "2-8 client threads share one Database (pool 2-8 workers). After a barrier each runs its generated program: CREATE TABLE of its own table (so DDL is concurrent), then inserts / updates / deletes / point and full selects on its own table, statements that must fail (unknown table), short sessions that commit or roll back, optional inserts of thread-private keys into one shared table and reads of it, with generated pacing (yield / 50-500 us sleeps) between statements; every run is a new sample of the thread schedule (the OS scheduler owns it: a failing case is re-run up to 12 times when replayed). Oracle: (a) every call returns within the hang limit (VERIF_C14_HANG_S, default 10 s) - a thread that makes no progress for that long is a deadlock/hang; (b) a statement fails iff its program says it must (anything else is an internal error; a dead worker is attributed by panic signature); (c) each thread reads its own acknowledged writes; (d) after all threads joined, every private table equals its owner's sequential model and the shared table equals the union of the acknowledged private-key inserts (any serial order of the committed transactions gives that state, because programs write disjoint keys). non-trivial = a run in which at least two threads overlapped in time on >= 4 statements each; distinct = hash of the programs.",
+        rule: "2-8 client threads share one Database (pool 2-8 workers). After a barrier each runs its generated program: CREATE TABLE of its own table (so DDL is concurrent), then inserts / updates / deletes / point and full selects on its own table, statements that must fail (unknown table), short sessions that commit or roll back, optional inserts of thread-private keys into one shared table and reads of it, with generated pacing (yield / 50-500 us sleeps) between statements; every run is a new sample of the thread schedule (the OS scheduler owns it: a failing case is re-run up to 60 times when replayed). Oracle: (a) every call returns within the hang limit (VERIF_C14_HANG_S, default 20 s) - a thread that makes no progress for that long is a deadlock/hang; (b) a statement fails iff its program says it must (anything else is an internal error; a dead worker is attributed by panic signature); (c) each thread reads its own acknowledged writes; (d) after all threads joined, every private table equals its owner's sequential model and the shared table equals the union of the acknowledged private-key inserts (any serial order of the committed transactions gives that state, because programs write disjoint keys). non-trivial = a run in which at least two threads overlapped in time on >= 4 statements each; distinct = hash of the programs.",
         assumptions: &[
             "sampling of schedules: the harness does not own the thread schedule (no scheduler hook is compiled in); pacing values are generated, interleavings are whatever the OS gives. A pass is one sample per case.",
             "programs write disjoint keys, so the serialisable outcome is unique and the oracle needs no search over serial orders",
@@ -62,7 +62,7 @@ enum Ev {
 }
 
 fn hang_limit() -> Duration {
-    Duration::from_secs(std::env::var("VERIF_C14_HANG_S").ok().and_then(|s| s.parse().ok()).unwrap_or(10))
+    Duration::from_secs(std::env::var("VERIF_C14_HANG_S").ok().and_then(|s| s.parse().ok()).unwrap_or(20))
 }
 
 fn exec(db: &Database, sql: &str) -> Result<Out, String> {
@@ -409,7 +409,7 @@ pub fn replay(kind: &str, case: &Value) -> CaseOut {
             Ok(c) => {
                 // a schedule-dependent failure may need several samples
                 let mut last = CaseOut::pass();
-                for _ in 0..12 {
+                for _ in 0..60 {
                     last = run_case(&c);
                     if last.failure.is_some() {
                         break;
